@@ -27,7 +27,7 @@ def neighbourhood(ctx, rule='A5n'):
         raise AnalysisError('_iter_neighborhood._iter_values vanished')
     ctx.touch(iv)
     cfg = build_cfg(iv)
-    yields = [n for n in cfg.nodes if n.ast is not None and any(isinstance(x, ast.Yield) for e in node_exprs(n)
+    yields = [n for n in cfg.nodes if n.ast is not None and any(isinstance(x, (ast.Yield, ast.YieldFrom)) for e in node_exprs(n)
                                                                 if e is not None for x in walk_no_nested(e))]
     if not yields:
         raise AnalysisError('_iter_values: no yield')
@@ -48,7 +48,7 @@ def neighbourhood(ctx, rule='A5n'):
     ok = len(firsts) == 1
     detail = ''
     if ok:
-        y = [x for x in ast.walk(firsts[0].ast) if isinstance(x, ast.Yield)][0]
+        y = [x for x in ast.walk(firsts[0].ast) if isinstance(x, (ast.Yield, ast.YieldFrom))][0]
         v = y.value
         src = norm(v)
         if isinstance(v, ast.Name):
@@ -75,10 +75,72 @@ def neighbourhood(ctx, rule='A5n'):
            f'{len(later)} later yield(s)')
     # range of neighbours stays inside [0, n_opts) and the search radius reaches the farthest option
     from ..rules import intcmp
-    m = match.Matcher(iv, ctx.prog)
-    ok = m.has('if pos < n_opts[i_dv]') and m.has('if neg >= 0')
-    ctx.ob(rule, fkey(iv, rule, 'neighbours-in-range'), ok, iv.where,
-           'neighbour values are only yielded inside [0, n_opts)', '')
+    import copy
+    single = {}
+    for a_ in walk_fn(iv):
+        if isinstance(a_, ast.Assign) and len(a_.targets) == 1 and isinstance(a_.targets[0], ast.Name):
+            single.setdefault(a_.targets[0].id, []).append(a_.value)
+    single = {k: v[0] for k, v in single.items() if len(v) == 1}
+
+    def expand(e, depth=3):
+        """Local names that are assigned once are replaced by their definition (hoisted sub-expressions)."""
+        class S(ast.NodeTransformer):
+            def visit_Name(self, node):
+                if isinstance(node.ctx, ast.Load) and node.id in single and depth > 0:
+                    return expand(single[node.id], depth - 1)
+                return node
+        return S().visit(copy.deepcopy(e))
+
+    dist_loops = [x for x in ast.walk(iv.node) if isinstance(x, ast.For) and isinstance(x.iter, ast.Call) and
+                  isinstance(x.iter.func, ast.Name) and x.iter.func.id == 'range' and isinstance(x.target, ast.Name)]
+    dname = dist_loops[0].target.id if dist_loops else 'dist'
+
+    def val(e, n_, cur_, d_):
+        return intcmp.holds(expand(e), lambda x: False, None,
+                            {f'opt_idx[{p}]': cur_, f'n_opts[{p}]': n_, 'self.n_opts[' + p + ']': n_, dname: d_})
+    samples = [(n_, c_, d_) for n_ in range(1, 6) for c_ in range(n_) for d_ in range(1, n_ + 1)]
+
+    def emitted(nd):
+        out = []
+        for e in node_exprs(nd):
+            if e is None:
+                continue
+            for x in walk_no_nested(e):
+                if isinstance(x, ast.Yield) and x.value is not None:
+                    out.append(x.value)
+                if isinstance(x, ast.Call) and call_name(x) == 'append' and len(x.args) == 1:
+                    out.append(x.args[0])
+        return out
+    sinks = {'+': [], '-': []}
+    for nd in cfg.nodes:
+        if nd.ast is None or nd in firsts:
+            continue
+        for e in emitted(nd):
+            try:
+                v_ = val(e, 100, 10, 3)
+            except (intcmp.NotSimple, TypeError):
+                continue
+            if v_ == 13:
+                sinks['+'].append(nd)
+            elif v_ == 7:
+                sinks['-'].append(nd)
+    if not sinks['+'] or not sinks['-']:
+        raise AnalysisError('A5n: neighbour values (current value +/- distance) not recognised in _iter_values')
+
+    def exact(side):
+        def fact(atom, truth):
+            try:
+                return all((bool(val(atom, n_, c_, d_)) == truth) ==
+                           ((c_ + d_ < n_) if side == '+' else (c_ - d_ >= 0)) for n_, c_, d_ in samples)
+            except (intcmp.NotSimple, TypeError):
+                return False
+        return fact
+    ok = guards.check_guarded(ctx, rule, iv, sinks['+'], exact('+'), set(), 'neighbours-in-range:upper',
+                              'a neighbour above the requested value is yielded exactly when it is below the number '
+                              'of options of that dimension')
+    ok = guards.check_guarded(ctx, rule, iv, sinks['-'], exact('-'), set(), 'neighbours-in-range:lower',
+                              'a neighbour below the requested value is yielded exactly when it is not negative '
+                              '(option 0 included)')
     loops = [x for x in ast.walk(iv.node) if isinstance(x, ast.For) and isinstance(x.iter, ast.Call) and
              isinstance(x.iter.func, ast.Name) and x.iter.func.id == 'range']
     ok = False
@@ -92,8 +154,8 @@ def neighbourhood(ctx, rule='A5n'):
             for n_ in range(1, 7):
                 for i_ in range(n_):
                     env = {cur_name: i_, f'n_opts[{p}]': n_, f'opt_idx[{p}]': i_}
-                    lo_ = intcmp._const(start, env)
-                    hi_ = _num_expr(stop, env)
+                    lo_ = intcmp._const(expand(start), env)
+                    hi_ = _num_expr(expand(stop), env)
                     far = max(i_, n_ - 1 - i_)
                     if lo_ > 1 or hi_ - 1 < far:
                         ok = False
